@@ -123,7 +123,78 @@ def run(ctx):
     M.compare_with_model(ctx, cases)
     M.check_oracle_hypotheses(ctx, cases)
     M.check_regex_model(ctx, cases)
-    M.check_oracle_hypotheses(ctx, cases)
+    # ---- other ways of supplying the examples: a check function, pandas columns (categorical ones included)
+    import pandas as pd
+    import tdda.rexpy.rexpy as rx
+
+    def judge(case, rexes, strings, opts):
+        kept = list(R.cleaned(strings, opts).keys())
+        if not kept:
+            if rexes:
+                ctx.fail(case, 'expressions %r returned although no example is kept' % (rexes,))
+            return
+        if len(rexes) > len(kept):
+            ctx.fail(case, '%d expressions for %d distinct examples' % (len(rexes), len(kept)))
+        for r_ in rexes:
+            try:
+                cr = re.compile(r_, R.RE_FLAGS)
+            except re.error as e_:
+                ctx.fail(case, 'expression %r does not compile: %s' % (r_, e_))
+                continue
+            if not (r_.startswith('^') and r_.endswith('$')):
+                ctx.fail(case, 'expression %r is not anchored' % r_)
+            fc = R.finding_class(''.join(kept), opts)
+            originals = [s for s in strings if s is not None]
+            if not any(cr.match(s) for s in kept + originals):
+                ctx.fail(case, 'expression %r matches none of the examples %r' % (r_, kept[:8]),
+                         finding='c13-portable-digits' if fc else None)
+    for it in range(40 if ctx.quick else 1500):
+        strings = R.gen_examples(rng)
+        opts = R.gen_opts(rng)
+        if rng.random() < 0.5:
+            opts['strip'] = True
+            strings = [rng.choice(['', ' ', '  ', '\t']) + s + rng.choice(['', ' ', '   ']) for s in strings]
+
+        def check(rexes, maxN=None, strings=strings):
+            pats = [re.compile(r_, R.RE_FLAGS) for r_ in rexes]
+            failures, freqs = [], [0] * len(rexes)
+            for u in strings:
+                for i_, cp in enumerate(pats):
+                    if cp.fullmatch(u):
+                        freqs[i_] += 1
+                        break
+                else:
+                    failures.append(u)
+            return failures, freqs
+        case = {'form': 'check function', 'examples': repr(strings)[:1500], 'opts': opts}
+        ctx.count(repr(case), True)
+        ctx.bump('form.check-function')
+        try:
+            x = rx.Extractor(check, **opts)
+            rexes = list(x.results.rex) if x.results else []
+        except Exception as e_:
+            ctx.fail(case, 'Extractor(check function) raised %s: %s' % (type(e_).__name__, str(e_)[:200]))
+            continue
+        judge(case, rexes, strings, opts)
+    for it in range(40 if ctx.quick else 1500):
+        strings = [s for s in R.gen_examples(rng)]
+        cats = sorted(set(strings) | set(rng.sample(['unknown value', 'N/A', 'zz-999', 'never seen'], rng.choice([1, 2]))))
+        kind = rng.choice(['filtered', 'all-null', 'plain'])
+        if kind == 'all-null':
+            ser = pd.Series(pd.Categorical([None] * 3, categories=cats))
+            vals = []
+        else:
+            vals = strings if kind == 'plain' else strings[:max(1, len(strings) // 2)]
+            ser = pd.Series(pd.Categorical(vals + [None], categories=cats))
+        case = {'form': 'pdextract categorical', 'values': repr(vals)[:1200], 'categories': repr(cats)[:600], 'kind': kind}
+        ctx.count(repr(case), True)
+        ctx.bump('form.pdextract-categorical.' + kind)
+        try:
+            rexes = rx.pdextract(ser) or []
+        except Exception as e_:
+            ctx.fail(case, 'pdextract raised %s: %s' % (type(e_).__name__, str(e_)[:200]))
+            continue
+        judge(case, list(rexes), vals, {})
     ctx.cov['rule'] = ('as C03 (multisets x options x dialect x Size x seed) plus empty inputs; every run is repeated with '
                        'tagging flipped and both results are compared on the examples and on near-miss probe strings')
     ctx.assumptions += ['re.compile / re.match of CPython decide validity and matching']
